@@ -312,13 +312,26 @@ def factories(cfg, lspecs):
     return out
 
 
+_TMP = [None]
+
+
+def clean(x):
+    """Temp directory names must not leak into the (deterministic) report."""
+    if _TMP[0] and isinstance(x, str):
+        return x.replace(_TMP[0], "$TMP")
+    if isinstance(x, (list, tuple)):
+        return [clean(v) for v in x]
+    return x
+
+
 class Checker:
     def __init__(self, col, text):
         self.col = col
-        self.text = text
+        self.text = clean(text)
 
     def bad(self, sig, what, expected, observed):
-        self.col.violation(sig, what, self.text, expected, observed)
+        self.col.violation(sig, what, self.text, clean(expected),
+                           clean(observed))
 
     def check_handler(self, h, hs, kind, tmpfiles):
         lh = logging.handlers
@@ -368,7 +381,7 @@ class Checker:
         rec = ordinary_record()
         arb = bool(hs.arbitrary and ref_bool(hs.arbitrary))
         try:
-            want = reference_render(style, fmt, ordinary_record())
+            want = reference_render(style, fmt, rec)
         except Exception as e:      # noqa: BLE001
             want = e
         if h.formatter is None:
@@ -384,7 +397,13 @@ class Checker:
                          " raises when an ordinary record is formatted",
                          "no exception", "%s: %s" % (type(e).__name__, e))
             return
-        if not isinstance(want, Exception) and got != want:
+        if isinstance(want, Exception):
+            # the configured style cannot render this record at all
+            self.bad("C20:format:rendering:" + style,
+                     "the formatter renders a record that the configured"
+                     " style cannot render",
+                     "%s: %s" % (type(want).__name__, want), got)
+        elif got != want:
             self.bad("C20:format:rendering:" + style,
                      "rendered text differs from the configured format",
                      want, got)
@@ -393,8 +412,6 @@ class Checker:
 def call_first(ck, spec, factory, env, tmpfiles):
     """First call of a factory: every property C20 states.  Returns
     (logger, handlers) or None."""
-    arb_off = all(not (h.arbitrary and ref_bool(h.arbitrary))
-                  for h in spec.handlers)
     root = logging.getLogger()
     before = root.handlers[:] if spec.kind == "eventlog" else []
     try:
@@ -406,8 +423,6 @@ def call_first(ck, spec, factory, env, tmpfiles):
             sig = "C20:format:accepted-at-load-but-formatter-build-raises"
             what = ("format accepted at load time cannot be used to build"
                     " the formatter")
-            if not arb_off:
-                sig += ":arbitrary-fields-on"
         ck.bad(sig, what, "a logger", "%s: %s" % (type(e).__name__, e))
         # handlers created before the failure are still registered
         return None
@@ -515,7 +530,7 @@ def do_level(col, item, uniq, tmp):
         sig = "C20:level:accepts-out-of-range" if s.lstrip("+-").isdigit() \
             else "C20:level:accepts-unknown-name"
         col.violation(sig, "level spelling must be rejected",
-                      config_text([spec]), "rejected", "accepted")
+                      clean(config_text([spec])), "rejected", "accepted")
 
 
 WHENS = ["D", "h", "midnight", "W0", "S", "M"]
@@ -565,7 +580,8 @@ def do_handler(col, item, uniq, tmp):
         else:
             sig = "C20:rotation:accepts-without-old-files"
             what = "rotation of a file requires old-files"
-        col.violation(sig, what, config_text([spec]), "rejected", "accepted")
+        col.violation(sig, what, clean(config_text([spec])), "rejected",
+                      "accepted")
 
 
 def do_format(col, item, uniq, tmp):
@@ -669,108 +685,118 @@ def do_history(col, item, uniq, tmp):
                         if id(h) not in closed],
                        [h.baseFilename for h in live])
 
-        for op in ops:
-            if op == "c":
-                k = rnd.randrange(len(facs))
-                if k in dropped:
-                    continue
-                spec, factory = facs[k]
-                if k not in created:
-                    res = call_first(ck, spec, factory, env, ())
-                    if res is None:
-                        break
-                    created[k] = res
-                    alive.extend(h for h in res[1] if is_file_handler(h))
-                    if rnd.random() < 0.5:
-                        rec = ordinary_record()
-                        for h in res[1]:
-                            h.handle(rec)
-                else:
-                    logger, handlers = created[k]
-                    n = len(logger.handlers)
-                    again = factory()
-                    if again is not logger or len(logger.handlers) != n:
-                        ck.bad("C20:factory:second-call",
-                               "second factory call",
-                               "same logger, %d handlers" % n,
-                               "%r, %d handlers" % (again,
-                                                    len(logger.handlers)))
-                check_registry("call")
-            elif op == "r":
-                snap = [(h, h.stream) for h in alive]
-                try:
-                    lh.reopenFiles()
-                except Exception as e:      # noqa: BLE001
-                    ck.bad("C20:reopen:raises", "reopenFiles raised",
-                           "no exception", "%s: %s" % (type(e).__name__, e))
-                    break
-                for h, old in snap:
-                    if id(h) in closed:
-                        if h.stream is not None and not h.stream.closed:
-                            ck.bad("C20:reopen:touches-closed-handler",
-                                   "reopen acted on a closed handler",
-                                   "stream stays closed", repr(h.stream))
-                        continue
-                    if old is None:
-                        want_open = False
-                        if isinstance(h, logging.handlers.BaseRotatingHandler):
-                            want_open = not h.delay
-                        fresh = h.stream is not None
-                        if fresh != want_open:
-                            ck.bad("C20:reopen:unopened-handler",
-                                   "reopen of a handler without stream",
-                                   "open=%s" % want_open, repr(h.stream))
-                        continue
-                    if not old.closed:
-                        ck.bad("C20:reopen:old-stream-left-open",
-                               "reopen must close the old stream", "closed",
-                               repr(old))
-                    if h.delay:
-                        ok = h.stream is None
-                    else:
-                        ok = (h.stream is not None and h.stream is not old
-                              and not h.stream.closed)
-                    if not ok:
-                        ck.bad("C20:reopen:stream", "stream after reopen",
-                               "None (delay)" if h.delay else "new open file",
-                               repr(h.stream))
-                check_registry("reopen")
-            elif op == "x":
-                try:
-                    lh.closeFiles()
-                except Exception as e:      # noqa: BLE001
-                    ck.bad("C20:close:raises", "closeFiles raised",
-                           "no exception", "%s: %s" % (type(e).__name__, e))
-                    break
-                for h in alive:
-                    closed.add(id(h))
-                    if h.stream is not None and not h.stream.closed:
-                        ck.bad("C20:close:stream-left-open",
-                               "closeFiles left a file open", "closed",
-                               repr(h.stream))
-                check_registry("close")
-            elif op == "d":
-                cands = [k for k in created if k not in dropped]
-                if not cands:
-                    continue
-                k = rnd.choice(cands)
+        # every operation runs in its own frame so that no local variable
+        # keeps a handler alive after a drop
+        def op_call():
+            k = rnd.randrange(len(facs))
+            if k in dropped:
+                return True
+            spec, factory = facs[k]
+            if k not in created:
+                res = call_first(ck, spec, factory, env, ())
+                if res is None:
+                    return False
+                created[k] = res
+                alive.extend(h for h in res[1] if is_file_handler(h))
+                if rnd.random() < 0.5:
+                    rec = ordinary_record()
+                    for h in res[1]:
+                        h.handle(rec)
+            else:
                 logger, handlers = created[k]
-                for dh in handlers:
-                    logger.removeHandler(dh)
-                dh = None
-                gone = [id(x) for x in handlers]
-                alive[:] = [h for h in alive if id(h) not in gone]
-                dropped.add(k)
-                facs[k] = (facs[k][0], None)
-                created[k] = (logger, [])
-                handlers = None
-                gc.collect()
-                check_registry("drop")
+                n = len(logger.handlers)
+                again = factory()
+                if again is not logger or len(logger.handlers) != n:
+                    ck.bad("C20:factory:second-call",
+                           "second factory call",
+                           "same logger, %d handlers" % n,
+                           "%r, %d handlers" % (again, len(logger.handlers)))
+            return True
+
+        def op_reopen():
+            snap = [(h, h.stream) for h in alive]
+            try:
+                lh.reopenFiles()
+            except Exception as e:      # noqa: BLE001
+                ck.bad("C20:reopen:raises", "reopenFiles raised",
+                       "no exception", "%s: %s" % (type(e).__name__, e))
+                return False
+            for h, old in snap:
+                if id(h) in closed:
+                    if h.stream is not None and not h.stream.closed:
+                        ck.bad("C20:reopen:touches-closed-handler",
+                               "reopen acted on a closed handler",
+                               "stream stays closed", repr(h.stream))
+                    continue
+                if old is None:
+                    want_open = False
+                    if isinstance(h, logging.handlers.BaseRotatingHandler):
+                        want_open = not h.delay
+                    if (h.stream is not None) != want_open:
+                        ck.bad("C20:reopen:unopened-handler",
+                               "reopen of a handler without stream",
+                               "open=%s" % want_open, repr(h.stream))
+                    continue
+                if not old.closed:
+                    ck.bad("C20:reopen:old-stream-left-open",
+                           "reopen must close the old stream", "closed",
+                           repr(old))
+                if h.delay:
+                    ok = h.stream is None
+                else:
+                    ok = (h.stream is not None and h.stream is not old
+                          and not h.stream.closed)
+                if not ok:
+                    ck.bad("C20:reopen:stream", "stream after reopen",
+                           "None (delay)" if h.delay else "new open file",
+                           repr(h.stream))
+            return True
+
+        def op_close():
+            try:
+                lh.closeFiles()
+            except Exception as e:      # noqa: BLE001
+                ck.bad("C20:close:raises", "closeFiles raised",
+                       "no exception", "%s: %s" % (type(e).__name__, e))
+                return False
+            for h in alive:
+                closed.add(id(h))
+                if h.stream is not None and not h.stream.closed:
+                    ck.bad("C20:close:stream-left-open",
+                           "closeFiles left a file open", "closed",
+                           repr(h.stream))
+            return True
+
+        def op_drop():
+            cands = [k for k in created if k not in dropped]
+            if not cands:
+                return True
+            k = rnd.choice(cands)
+            logger, handlers = created[k]
+            for h in handlers:
+                logger.removeHandler(h)
+            gone = [id(h) for h in handlers]
+            alive[:] = [h for h in alive if id(h) not in gone]
+            dropped.add(k)
+            facs[k] = (facs[k][0], None)    # the factory caches its product
+            created[k] = (logger, [])
+            del handlers[:]
+            return True
+
+        table = {"c": (op_call, "call"), "r": (op_reopen, "reopen"),
+                 "x": (op_close, "close"), "d": (op_drop, "drop")}
+        for op in ops:
+            fn, label = table[op]
+            if not fn():
+                break
+            gc.collect()
+            check_registry(label)
             if env.fake_out.closed or env.fake_err.closed:
                 ck.bad("C20:stdstream:closed", "a standard stream was closed",
                        "open", "closed")
                 break
-        snap = alive = None
+        del alive[:]
+        created.clear()
 
 
 # --------------------------------------------------------------------- run
@@ -782,6 +808,7 @@ FAMILIES = {"level": do_level, "handler": do_handler, "format": do_format,
 def work(chunk):
     use_repo()
     tmp, seed, start, items = chunk
+    _TMP[0] = tmp
     col = Collector()
     logging.raiseExceptions = False
     for n, item in enumerate(items):
@@ -793,7 +820,7 @@ def work(chunk):
 def run(tier, seed):
     use_repo()
     col = Collector()
-    nhist = 6000 if tier == "thorough" else 900
+    nhist = 20000 if tier == "thorough" else 2500
     items = level_cases(seed) + handler_cases()
     for arb in (False, True):
         items += [("format", s, f, arb) for s, f in format_cases()]
